@@ -13,10 +13,17 @@
  *   C role x0 y0 n rows dx          OP_SRC composite of an n x rows rectangle into an a8r8g8b8 destination at
  *                                   column dx; role src: the image is the source at (x0,y0); role mask: the
  *                                   source is solid white and the image is a component-alpha mask at (x0,y0)
+ *   W mode role x0 y0 n rows        the same request evaluated by the wide (floating point) pipeline:
+ *                                   mode op    PIXMAN_OP_DISJOINT_OVER onto a cleared a8r8g8b8 destination (= source)
+ *                                   mode float PIXMAN_OP_SRC onto an rgba_float destination
+ *                                   mode a2r10 PIXMAN_OP_SRC onto an a2r10g10b10 destination
+ *                                   logged per pixel as channel numerators a,r,g,b over the denominators `max`
+ *                                   (float: lround (f * 16320) over 16320)
  * The implementation chain is chosen by the environment (PIXMAN_DISABLE), one process per chain.
  */
 #include "vcommon.h"
 #include <pixman.h>
+#include <math.h>
 
 #define MAXPIX 4096
 #define MAXPAR 4096
@@ -232,6 +239,80 @@ main (int argc, char **argv)
 		{
 		    uint32_t v = dbits[y * dw + dx + x];
 		    fprintf (vt_out, x ? ",[%u,%u]" : "[%u,%u]", v >> 16, v & 0xffff);
+		}
+		fputs ("]", vt_out);
+	    }
+	    fputs ("]", vt_out);
+	    vt_end ();
+	    pixman_image_unref (dst);
+	    free (dbits);
+	}
+	else if (kind[0] == 'W')
+	{
+	    char mode[32];
+	    int x0, y0, n, rows, x, y, i;
+	    pixman_image_t *dst, *white = NULL;
+	    pixman_format_code_t dfmt;
+	    pixman_op_t op;
+	    uint32_t *dbits;
+	    int words, isf, isop;
+	    if (fscanf (in, "%31s %127s %d %d %d %d", mode, name, &x0, &y0, &n, &rows) != 6) return 3;
+	    if (!img || n < 1 || rows < 1 || n > 512 || rows > 64) return 3;
+	    isf = !strcmp (mode, "float");
+	    isop = !strcmp (mode, "op");
+	    if (isf) { dfmt = PIXMAN_rgba_float; op = PIXMAN_OP_SRC; words = 4; }
+	    else if (isop) { dfmt = PIXMAN_a8r8g8b8; op = PIXMAN_OP_DISJOINT_OVER; words = 1; }
+	    else if (!strcmp (mode, "a2r10")) { dfmt = PIXMAN_a2r10g10b10; op = PIXMAN_OP_SRC; words = 1; }
+	    else return 3;
+	    dbits = malloc (sizeof (uint32_t) * words * n * rows);
+	    for (i = 0; i < words * n * rows; i++)
+	    {
+		if (isf) ((float *)dbits)[i] = 0.123f;
+		else dbits[i] = isop ? 0 : 0x5a3c7e91;
+	    }
+	    dst = pixman_image_create_bits (dfmt, n, rows, dbits, n * words * 4);
+	    if (!dst) return 3;
+	    if (!strcmp (name, "mask"))
+	    {
+		pixman_color_t c = { 0xffff, 0xffff, 0xffff, 0xffff };
+		white = pixman_image_create_solid_fill (&c);
+		pixman_image_set_component_alpha (img, 1);
+		pixman_image_composite32 (op, white, img, dst, 0, 0, x0, y0, 0, 0, n, rows);
+		pixman_image_set_component_alpha (img, 0);
+		pixman_image_unref (white);
+	    }
+	    else
+		pixman_image_composite32 (op, img, NULL, dst, x0, y0, 0, 0, 0, 0, n, rows);
+	    vt_begin ("FetchWide");
+	    vt_str ("mode", mode); vt_str ("role", name);
+	    vt_int ("x0", x0); vt_int ("y0", y0); vt_int ("n", n); vt_int ("rows", rows);
+	    if (isf) fputs (",\"max\":[16320,16320,16320,16320]", vt_out);
+	    else if (isop) fputs (",\"max\":[255,255,255,255]", vt_out);
+	    else fputs (",\"max\":[3,1023,1023,1023]", vt_out);
+	    fputs (",\"out\":[", vt_out);
+	    for (y = 0; y < rows; y++)
+	    {
+		fputs (y ? ",[" : "[", vt_out);
+		for (x = 0; x < n; x++)
+		{
+		    long a, r, g, b;
+		    if (isf)
+		    {
+			float *f = (float *)dbits + (y * n + x) * 4;	/* r g b a */
+			float v[4];
+			int k;
+			for (k = 0; k < 4; k++)
+			    v[k] = f[k] != f[k] ? -1.f : (f[k] > 1.5f ? 1.5f : (f[k] < -1.f ? -1.f : f[k]));
+			r = lroundf (v[0] * 16320.f); g = lroundf (v[1] * 16320.f);
+			b = lroundf (v[2] * 16320.f); a = lroundf (v[3] * 16320.f);
+		    }
+		    else
+		    {
+			uint32_t w = dbits[y * n + x];
+			if (isop) { a = w >> 24; r = (w >> 16) & 255; g = (w >> 8) & 255; b = w & 255; }
+			else { a = w >> 30; r = (w >> 20) & 1023; g = (w >> 10) & 1023; b = w & 1023; }
+		    }
+		    fprintf (vt_out, "%s[%ld,%ld,%ld,%ld]", x ? "," : "", a, r, g, b);
 		}
 		fputs ("]", vt_out);
 	    }
